@@ -41,7 +41,7 @@ CLAIMS = {
             "such token of the block lies in the span of an event queued by the call, and the block is fully consumed (finish). "
             "Bounded (Kani, 3 bytes, not counted as proved): the front-matter line scanner tiles its input. "
             "Not decided: the rest of the front-matter split, the composition over all blocks (Iterator::next glue), blank-name sections and `>` "
-            "text paragraphs.", VERUS),
+            "text paragraphs.", VERUS + " + " + KANI),
     "C07": ("proof", "Partial. Leaf parse-stage checks as postconditions: check_modifiers / check_empty_name emit exactly one error iff "
             "the forbidden construct is present; section / metadata_entry / check_alias / check_note / comp_body emit at most one "
             "diagnostic of the documented severity; all diagnostics queued by component parsers are Error/Warning events "
@@ -59,13 +59,13 @@ CLAIMS = {
             "uninterpreted float relation: the contract pins which operands are multiplied, not the rounded result), outcome Scaled; "
             "text is unchanged with outcome Error; default scaling returns the written value; the unit is kept; scale_to_servings "
             "scales by one f64 division of the target and the first declared servings (over an assumed `scale`); Kani (bounded): "
-            "the declared servings are kept in order. Recipe-level iteration and fitting are not decided.", VERUS),
+            "the declared servings are kept in order. Recipe-level iteration and fitting are not decided.", VERUS + " + " + KANI),
     "C10": ("proof", "Partial (value level). Contracts on the real Value::try_add and GroupedValue::{add,merge,..}: text never takes "
             "part in a sum and is kept verbatim in insertion order; numbers and ranges are folded end-wise into the single numeric "
             "slot (sum as an uninterpreted f64 relation over the right operands); the `expect` in add cannot fire; the "
             "representation invariant (at most one numeric value, first) is preserved. Bounded (Kani): all_quantities lists every "
             "present quantity of a definition and its two references exactly once. GroupedQuantity, ingredient lists and "
-            "aisle categorisation are not decided.", VERUS),
+            "aisle categorisation are not decided.", VERUS + " + " + KANI),
     "C11": ("proof", "Partial. The span computation of aisle::parse (calc_span closure, lifted mechanically) never asserts and returns "
             "exactly the sub-slice's offsets for every sub-slice of the input (Kani, loop-free, pointer-level). Duplicate detection, "
             "writer round trip and lookup are not decided (std string pattern APIs are out of both tools' reach).", KANI),
@@ -84,7 +84,7 @@ CLAIMS = {
             "comment ends at the first `-]`; the block splitter drops only blank tokens, trims trailing newlines, and a line "
             "starting with `>>` or `=` is always a block of its own; bounded (Kani, 3 bytes): the front-matter line scanner "
             "treats LF and CRLF alike. The metamorphic relation itself (two parses compared) is not "
-            "decided.", VERUS),
+            "decided.", VERUS + " + " + KANI),
 }
 
 NA_REASON = {
